@@ -156,7 +156,48 @@ def analyse_loop(chk, loop, seen):
            'activation', site=site)
 
 
+class _Tagged:
+    """The checker with every construct name suffixed (second analysis of
+    the same code under another reading of it)."""
+
+    def __init__(self, chk, tag):
+        self._chk, self._tag = chk, tag
+
+    def __getattr__(self, name):
+        return getattr(self._chk, name)
+
+    def ob(self, rule, construct, ok, fact='', **kw):
+        return self._chk.ob(rule, '%s %s' % (construct, self._tag), ok,
+                            fact, **kw)
+
+    def undecide(self, rule, construct, why):
+        return self._chk.undecide(rule, '%s %s' % (construct, self._tag),
+                                  why)
+
+
 def run(chk, ctx):
+    _analyse(chk, ctx)
+    # `assert` statements are compiled away under python -O /
+    # PYTHONOPTIMIZE: a bound that only an assert enforces is not a bound
+    # there.  When the decode side has any, the whole argument is repeated
+    # on the program without them.
+    nas = 0
+    for mi in ctx.prog.modules.values():
+        if mi.name.endswith(('.decode', '.frame', '.header', '.body',
+                             '.heartbeat', '.base', '.common')):
+            nas += sum(isinstance(n, ast.Assert) for n in ast.walk(mi.tree))
+    chk.units['assert_statements_decode_side'] = nas
+    if nas:
+        from .. import context
+        I.ASSERTS_REMOVED = True
+        try:
+            _analyse(_Tagged(chk, '[python -O: asserts removed]'),
+                     context.Context(ctx.repo, ctx.tier))
+        finally:
+            I.ASSERTS_REMOVED = False
+
+
+def _analyse(chk, ctx):
     for r, t in RULES.items():
         chk.rule(r, t)
     chk.explanation = (
